@@ -169,6 +169,17 @@ Proof.
     apply vanishing_on_domain. lia.
 Qed.
 
+(* the table of X^d - 1 over the coset, computed by repeated multiplication, is the evaluation
+   of X^d - 1 at g * w^i *)
+Theorem vanishing_over_coset_spec k d i : (i < Nat.pow 2 k)%nat ->
+  nth i (vanishing_over_coset k d) 0 = fpow_nat (coset_gen * fpow_nat (domain_gen k) i) d - 1.
+Proof.
+  intros Hi. unfold vanishing_over_coset.
+  rewrite (nth_map_lt _ _ _ _ 0) by (rewrite powers_length; exact Hi).
+  rewrite nth_powers by exact Hi. rewrite fpow_nat_mul_base.
+  rewrite <- !fpow_nat_mul. rewrite (Nat.mul_comm d i). reflexivity.
+Qed.
+
 (* ---- barycentric evaluation = evaluation of the interpolating polynomial ---- *)
 Lemma inv_root_props k : (k <= 32)%nat ->
   forall i, fpow_nat (domain_gen k) i * fpow_nat (finv (domain_gen k)) i = 1 /\
